@@ -148,6 +148,26 @@ func registerVX() {
 		}
 		return mkConst(0, 64)
 	})
+	// Guard(state, &mu, label): from now on every read of state (a pointer to a
+	// struct/field, a map, a slice; contained fields and maps included) needs
+	// mu read- or write-locked and every write needs it write-locked.
+	reg("Guard", func(in *Interp, c *frame, fn *ssa.Function, a []Value) Value {
+		mu, ok := a[1].(Iface).v.(*Value)
+		if !ok || mu == nil {
+			panic(unsupported{"vx.Guard: mutex must be a non-nil pointer"})
+		}
+		in.mu(mu)
+		g := &guardInfo{mu: mu, label: argStr(in, a[2], "label")}
+		st := a[0].(Iface)
+		if st.t == nil {
+			panic(unsupported{"vx.Guard: nil state"})
+		}
+		in.addGuard(st.v, g, 0)
+		return nil
+	})
+	reg("GuardHits", func(in *Interp, c *frame, fn *ssa.Function, a []Value) Value {
+		return mkConst(uint64(in.guardHits), 64)
+	})
 	reg("Goroutines", func(in *Interp, c *frame, fn *ssa.Function, a []Value) Value {
 		return mkConst(uint64(len(in.gos)), 64)
 	})
